@@ -95,12 +95,20 @@ def family():
                           _rec("Ob", [f("a", "int"), f("c", "string", default="x")])], "union", "unionrec")
     add("union_in_array_named", ["null", {"type": "array", "items": ["null", _enum("Ev"), _rec("Rv", [f("k", "int")])]}],
         "union", "chain")
+    add("union_recs_by_ref", _rec("Wrap", [
+        f("defs", _rec("Defs", [f("s", _rec("ns.Small", [f("id", "int"), f("x", "int", default=0)])),
+                                f("b", _rec("ns.Big", [f("id", "int"), f("x", "int", default=0), f("y", "int", default=0)]))])),
+        f("u", ["null", "ns.Small", "ns.Big"])]), "union", "unionrec", "ref")
+    add("union_nested_arrays", ["null", {"type": "array", "items": ["int", {"type": "array", "items": "string"}]}],
+        "union", "chain")
     add("union_map_rec", [{"type": "map", "values": "int"}, _rec("Rm", [f("a", "int")])], "union", "unionrec")
     add("rec_dictnull", _rec("Dn", [f("n", {"type": "null"}), f("u", [{"type": "null"}, "int"]), f("k", "int")]), "rec")
     add("map_key_is_field", _rec("Mk", [f("k0", "int"), f("m", {"type": "map", "values": "int"}), f("z", "string")]), "rec")
     # defaults / omitted fields
     add("rec_defaults", _rec("Dflt", [f("a", "int", default=7), f("u", ["null", "int"], default=None),
                                       f("r", "long")]), "defaults")
+    add("rec_defaults3", _rec("Dflt3", [f("x", ["int", "null"], default=5), f("s", ["string", "null"], default="dd"),
+                                        f("k", "int")]), "defaults")
     add("rec_defaults2", _rec("Dflt2", [f("s", "string", default="dd"), f("r", "int"),
                                         f("e", _enum("De"), default="B")]), "defaults")
     # references and namespaces
@@ -141,6 +149,9 @@ def select(tier, seed, want=None, extra_tags=()):
             continue
         x = rng.choice(must[t])
         chosen[x[0]] = x
+    for x in F:
+        if "defaults" in x[1]:
+            chosen[x[0]] = x
     pairs = [x for x in F if "pair" in x[1]]
     rng.shuffle(pairs)
     for x in pairs[:8]:
